@@ -13,7 +13,7 @@ sys.path.insert(0, os.path.dirname(os.path.abspath(__file__)))
 import dlib  # noqa: E402
 
 from traits.api import (  # noqa: E402
-    Any, ComparisonMode, Event, HasTraits, TraitError, TraitType, Undefined, Uninitialized, observe, on_trait_change,
+    Any, ComparisonMode, Event, Trait, HasTraits, TraitError, TraitType, Undefined, Uninitialized, observe, on_trait_change,
     pop_exception_handler, push_exception_handler)
 from traits.observation import api as obs_api  # noqa: E402
 
@@ -159,6 +159,7 @@ def observe_sink(event):
 
 
 _classes = {}
+_shared = {}
 
 
 def make_trait(kind, mode, default, orig=False, variant=""):
@@ -171,11 +172,26 @@ def make_trait(kind, mode, default, orig=False, variant=""):
     return cls_t(default_value=POOL[default], comparison_mode=MODES[mode]) if kind == "normal" else Event(Pick())
 
 
-def make_class(kind, mode, default, statics, orig=False, variant=""):
-    key = (kind, mode, default, tuple(sorted(statics)), bool(orig), variant)
+def make_class(kind, mode, default, statics, orig=False, variant="", build="", sibling=False):
+    key = (kind, mode, default, tuple(sorted(statics)), bool(orig), variant, build, sibling)
     if key in _classes:
         return _classes[key]
-    ns = {"x": make_trait(kind, mode, default, orig, variant)}
+    if build.startswith("derived-") and kind == "normal":
+        # a definition DERIVED from an already built CTrait that is in another comparison mode:
+        # Trait(base_ctrait, comparison_mode=...) clones the base (its mode bits included) and then sets the mode
+        base = make_trait(kind, build[len("derived-"):], default, orig, variant).as_ctrait()
+        ns = {"x": Trait(base, comparison_mode=MODES[mode]), "y": make_trait(kind, mode, default, orig, variant)}
+    elif build == "shared":
+        # ONE pre-built CTrait object used for two attributes of this class and for a sibling class with the same
+        # static handlers (the module-level idiom `Coordinate = Trait(0.0)`): every use must get its own notifier list
+        if not sibling:
+            ct = make_trait(kind, mode, default, orig, variant).as_ctrait()
+            _shared[key] = ct
+        ct = _shared[key[:-1] + (False,)]
+        ns = {"x": ct, "y": ct}
+    else:
+        ns = {"x": make_trait(kind, mode, default, orig, variant), "y": make_trait(kind, mode, default, orig, variant)}
+    ns["e"] = Event()                 # another trait of another kind on the same object (same anytrait wrapper)
     if variant == "ddef" and kind == "normal":
         ns["_x_default"] = (lambda self, d=default: POOL[d])
     if "any" in statics:
@@ -203,6 +219,8 @@ def make_class(kind, mode, default, statics, orig=False, variant=""):
         ns["_decorated_obs"] = _decorated_obs
     cls = type(HasTraits)("H", (HasTraits,), ns)
     _classes[key] = cls
+    if build == "shared" and not sibling:
+        make_class(kind, mode, default, statics, orig, variant, build, sibling=True)     # built from the same CTrait object
     return cls
 
 
@@ -288,7 +306,7 @@ def attach(kind, hid, remove=False):
 
 def run_case(case):
     a = make_class(case["kind"], case["mode"], case["default"], case["statics"], case.get("orig", False),
-                   case.get("variant", ""))()
+                   case.get("variant", ""), case.get("build", ""))()
     RAISES.clear()
     RAISES.update(case["raises"])
     CUR.clear()
@@ -319,6 +337,13 @@ def run_case(case):
                                             case.get("variant", "")))
             elif op[0] == "QuietAssign":
                 a.trait_set(trait_change_notify=False, x=POOL[op[1]])
+            elif op[0] == "Other":             # another trait of the same object: the Event e, or the sibling attribute y
+                if op[1] == "e":
+                    a.e = POOL[2]
+                else:
+                    a.y = POOL[2]
+            elif op[0] == "SetMode":           # reconfigure the (instance) trait at run time
+                a._trait("x", 2).comparison_mode = MODES[op[1]]
             elif op[0] == "Notify":            # obj._trait_change_notify(False / True)
                 a._trait_change_notify(bool(op[1]))
             elif op[0] == "Register":          # in the middle of the history
